@@ -38,6 +38,9 @@ def _import_module_from_path(module_name: str, file_path: Path):
     return module
 
 
+SUIT_ENVELOPE_TAG = 107
+
+
 def _mutable_envelope(envelope):
     """Return the envelope with a mutable dict as its value (cbor2>=6 decodes tagged content as immutable)."""
     if isinstance(envelope, cbor2.CBORTag) and not isinstance(envelope.value, dict) and hasattr(envelope.value, "items"):
@@ -155,7 +158,11 @@ class RecursiveSigner:
             dependency_envelope = cbor2.loads(self.envelope.value[dependency_name])
         except cbor2.CBORDecodeError:
             raise ValueError(f"Failed decoding dependency {dependency_name} in {self.envelope_name}")
-        if not isinstance(dependency_envelope, cbor2.CBORTag):
+        if (
+            not isinstance(dependency_envelope, cbor2.CBORTag)
+            or dependency_envelope.tag != SUIT_ENVELOPE_TAG
+            or not hasattr(dependency_envelope.value, "items")
+        ):
             raise ValueError(f"Dependency {dependency_name} in {self.envelope_name} is not a valid envelope.")
 
         return _mutable_envelope(dependency_envelope)
